@@ -2139,10 +2139,83 @@ def int_of(cx, s, base):
     return _norm(v)
 
 
+def _concrete_text(cx, v):
+    """a str/bytes value without symbolic elements, as a Python object"""
+    if isinstance(v, (bytes, str)):
+        return v
+    if isinstance(v, bytearray):
+        return bytes(v)
+    if isinstance(v, Seq):
+        if any(is_sym(x) for x in v.items):
+            raise CxError('regular expression on symbolic content')
+        if v.kind == 'str':
+            return ''.join(v.items)
+        return bytes(v.items)
+    raise CxError('regular expression on {}'.format(type(v).__name__))
+
+
+def _wrap_match(m):
+    if m is None:
+        return None
+    return Opaque('re.Match', {
+        'group': lambda c, a, k: m.group(*a),
+        'groups': lambda c, a, k: m.groups(*a),
+        'start': lambda c, a, k: m.start(*a),
+        'end': lambda c, a, k: m.end(*a),
+        'span': lambda c, a, k: m.span(*a),
+        'groupdict': lambda c, a, k: m.groupdict(),
+    }, attrs={'lastindex': m.lastindex, 'string': m.string})
+
+
+def regex_call(cx, pattern, flags, name, args, kw):
+    """the standard library's regular expressions on CONCRETE text: a
+    primitive of the abstract machine, like bytes.fromhex or int()"""
+    import re
+    if isinstance(pattern, CE.Regex):
+        pattern, flags = pattern.pattern, pattern.flags | (flags or 0)
+    pattern = _concrete_text(cx, pattern)
+    try:
+        rx_ = re.compile(pattern, flags or 0)
+    except re.error as ex:
+        raise PyRaise('error', (str(ex),))
+    try:
+        if name in ('match', 'search', 'fullmatch'):
+            text = _concrete_text(cx, args[0])
+            return _wrap_match(getattr(rx_, name)(text, *args[1:]))
+        if name in ('sub', 'subn'):
+            repl, text = args[0], _concrete_text(cx, args[1])
+            if isinstance(repl, (FuncVal, BoundBuiltin, LambdaVal)):
+                fn = repl
+
+                def repl(m, fn=fn):
+                    return _concrete_text(cx, cx.call(fn, [_wrap_match(m)],
+                                                      {}))
+            else:
+                repl = _concrete_text(cx, repl)
+            return getattr(rx_, name)(repl, text, *args[2:], **kw)
+        if name in ('split', 'findall'):
+            return getattr(rx_, name)(_concrete_text(cx, args[0]), *args[1:])
+        if name == 'pattern':
+            return pattern
+    except TypeError as ex:
+        raise PyRaise('TypeError', (str(ex),))
+    raise CxError('regular expression method {}'.format(name))
+
+
 def call_ext(cx, name, args, kw):
     n = name
     if n in cx.ext_hooks:
         return cx.ext_hooks[n](cx, args, kw)
+    if n.startswith('re.') and n[3:] in ('match', 'search', 'fullmatch',
+                                         'sub', 'subn', 'split', 'findall'):
+        fl = kw.pop('flags', 0) if isinstance(kw, dict) else 0
+        return regex_call(cx, args[0], fl, n[3:], list(args[1:]), kw)
+    if n == 're.compile':
+        return CE.Regex(_concrete_text(cx, args[0]),
+                        (args[1] if len(args) > 1 else kw.get('flags', 0)))
+    if n == 're.escape':
+        import re
+        return re.escape(_concrete_text(cx, args[0]))
     if n in EXC_NAMES:
         return PyRaise(n, tuple(args))
     if n == 'len':
@@ -2542,7 +2615,7 @@ def call_method(cx, recv, name, args, kw):
     if recv is CE.UNKNOWN:
         raise CxError('method of an unknown constant')
     if isinstance(recv, CE.Regex):
-        raise CxError('regular expression on evaluated content')
+        return regex_call(cx, recv.pattern, recv.flags, name, args, kw)
     k = cx.kind_of(recv)
     if isinstance(recv, dict):
         return dict_method(cx, recv, name, args, kw)
